@@ -715,3 +715,16 @@ def replay(ctx, data):
                 c[k] = eval(c[k])
         c["needles"] = [eval(n) if isinstance(n, str) else n for n in c["needles"]]
         check_lib_cases(ctx, [c], Counter())
+
+
+
+# ----------------------------------------------------------------------------------------------- source tie (DESIGN §4.2)
+# the definitions of Gen/DecisionsLib.v this property's Props file ties to the model (`*_generated_eq_model`): when
+# tools/gen/decisions_lib.py could not translate the current source text the tie is broken and reported
+GEN_LIB_TARGETS = ['should_binary_quit', 'detect_binary_result']
+_run_checks = run
+
+
+def run(ctx):
+    _run_checks(ctx)
+    vlib.report_gen_drift(ctx, "decisions_lib", GEN_LIB_TARGETS, bool(ctx.violations))
